@@ -90,6 +90,9 @@ func (g *generator) unknownFieldDef(m int) (FieldDef, bool) {
 		if baseSize[b]*k > 255 {
 			k = 1
 		}
+		if b == 7 && g.rng.Intn(3) == 0 {
+			k = 0 // a string field of size 0: listed in the definition, carries nothing
+		}
 		return FieldDef{byte(n), byte(baseSize[b] * k), baseByte[b]}, true
 	}
 	return FieldDef{}, false
@@ -130,7 +133,9 @@ func (g *generator) pickMsg(t int) int {
 	}
 	h := g.hosted(t)
 	if len(h) > 0 && g.rng.Intn(10) < 7 {
-		return h[g.rng.Intn(len(h))]
+		if m := h[g.rng.Intn(len(h))]; g.p.by[m] != nil {
+			return m
+		}
 	}
 	return g.p.Msgs[g.rng.Intn(len(g.p.Msgs))].M
 }
@@ -212,6 +217,12 @@ func (g *generator) define(s *Stream, l, t int) {
 		dev = []DevDef{}
 		for i := g.rng.Intn(3); i >= 0; i-- {
 			dev = append(dev, DevDef{byte(g.rng.Intn(10)), byte(g.rng.Intn(6)), byte(g.rng.Intn(2))})
+		}
+		if g.rng.Intn(10) == 0 {
+			// a lot of developer data in one record
+			for i := 3 + g.rng.Intn(3); i >= 0; i-- {
+				dev = append(dev, DevDef{byte(20 + i), byte(200 + g.rng.Intn(56)), 0})
+			}
 		}
 	}
 	if g.rng.Float64() < g.k.pUnknownMsg {
